@@ -186,6 +186,61 @@ class TranscriptRows(Case):
         return [[_etype(x.type), o(x.start), o(x.end), _ename(x.strand), _ename(x.phase)] for x in r]
 
 
+class TranscriptRowsChunkCut(Case):
+    """chunk-relative GFF rows of a single-exon coding transcript built on a chunk that CUTS it anywhere (at least one
+    exon base visible): transcript / exon rows = the visible part in chunk coordinates (1-based inclusive); a CDS row
+    only when a CDS base is visible, covering the visible CDS part, with the phase of the reading frame AT the first
+    visible CDS base: (bases cut at the 5' end - start frame) mod 3."""
+    props = ("C11", "C07")
+    func = TRANSCRIPT + ".to_gff"
+    shard_depth = 5
+    name = "TranscriptInterval.to_gff[1 exon, coding, chunk-relative, chunk cutting the transcript]"
+    call = "list(tx.to_gff(parent='gene1', chromosome_relative_coordinates=False))"
+    ensures = {
+        "row-types": lambda i, r: ([_etype(x.type) for x in r] == ["transcript", "exon", "CDS"]) if len(r) == 3 else (
+            [_etype(x.type) for x in r] == ["transcript", "exon"]),
+        "cds-row-iff-a-cds-base-is-visible": lambda i, r: (i.cvs < i.cve) if len(r) == 3 else Not(i.cvs < i.cve),
+        "transcript-and-exon-rows-are-the-visible-part": lambda i, r: And(*[
+            And(x.start == i.vs - i.cs + 1, x.end == i.ve - i.cs) for x in r[:2]]),
+        "cds-row-is-the-visible-cds-part": lambda i, r: And(r[2].start == i.cvs - i.cs + 1, r[2].end == i.cve - i.cs)
+        if len(r) == 3 else True,
+        "cds-phase-is-the-frame-at-the-first-visible-base": lambda i, r: (
+            enum_value(r[2].phase) == Mod(i.d5 - i.f, 3)) if len(r) == 3 else True,
+        "strand-and-phase-columns": lambda i, r: And(all(_same_enum(x.strand, i.strand) for x in r),
+                                                     all(_ename(x.phase) == "NONE" for x in r[:2])),
+    }
+
+    def inputs(self, S):
+        starts, ends = block_lists(S, "tx", 1)
+        strand = strand_of(S, "strand")
+        cds_s, cds_e, c0, c1 = cds_in_exons(S, starts, ends)
+        f = S.enum(FRAME, "frame")
+        S.assume(Not(enum_name_is(f, "NONE")))
+        if S.mode == "sym":
+            f = S.e.enum_concretize(f)
+        cp, cs, ce = chunk_parent(S)
+        s, e = starts[0], ends[0]
+        S.assume(Max(s, cs) < Min(e, ce))
+        tx = S.new(TRANSCRIPT, starts, ends, strand, cds_starts=cds_s, cds_ends=cds_e, cds_frames=[f],
+                   sequence_name="chr1", transcript_symbol="sym", parent_or_seq_chunk_parent=cp)
+        plus = (strand.members[strand.idx][0] if hasattr(strand, "members") else strand.name) == "PLUS"
+        cvs, cve = Max(cds_s[0], cs), Min(cds_e[0], ce)
+        d5 = (cvs - cds_s[0]) if plus else (cds_e[0] - cve)
+        return NS(tx=tx, strand=strand, cs=cs, vs=Max(s, cs), ve=Min(e, ce), cvs=cvs, cve=cve, d5=d5, f=enum_value(f))
+
+    def samples(self, rng):
+        d = sample_blocks(rng, "tx", 1, lo=2, length=(5, 8, 12))
+        d["strand"] = rng.choice(["PLUS", "MINUS"])
+        sample_cds(rng, d)
+        cs = rng.randint(0, d["tx_ends"][-1] - 1)
+        ce = rng.randint(cs + 1, d["tx_ends"][-1] + 3)
+        d.update(chunk_start=cs, chunk_end=ce, chunk_seq="".join(rng.choice("ACGT") for _ in range(ce - cs)),
+                 frame=rng.choice(["ZERO", "ONE", "TWO"]))
+        return d
+
+    observe = TranscriptRows.observe
+
+
 class FeatureRows(Case):
     """FeatureInterval.to_gff: one feature row and one sub-region row per block, 1-based inclusive coordinates of the
     source blocks in the exported coordinate system (adjacent blocks stay separate rows), phase '.' everywhere."""
@@ -394,7 +449,7 @@ class RowText(Case):
 
 CASES = [Escape(), AttributesColumn(), RowText(), TranscriptRows(1), TranscriptRows(2), TranscriptRows(1, True),
          TranscriptRows(2, True), FeatureRows(2), FeatureRows(2, True), FeatureRows(3, True),
-         GeneRowQualifiers(), CollectionRowOrder(), TranscriptRows(1, cut=True), TranscriptRows(2, cut=True)]
+         GeneRowQualifiers(), CollectionRowOrder(), TranscriptRows(1, cut=True), TranscriptRows(2, cut=True), TranscriptRowsChunkCut()]
 
 CANARIES = [
     dict(name="gff: start not shifted to 1-based", props=("C11",), file="inscripta/biocantor/gene/transcript.py",
